@@ -64,7 +64,7 @@ TEXTS = [("utf-8", "héllo wörld ✓\n"), ("iso-8859-1", "café crème £\n"), 
 
 
 def gen_upstream(ch, cap):
-    b = ch.choose("beh", 14, [12, 2, 2, 2, 2, 2, 2, 2, 3, 2, 2, 3, 2, 2])
+    b = ch.choose("beh", 15, [12, 2, 2, 2, 2, 2, 2, 2, 3, 2, 2, 3, 2, 2, 1])
     info = {"beh": b, "must": None, "stream": b"", "end": "close", "name": None}
     if b == 0 or b == 11 or b == 12:
         kind = ch.choose("rkind", 5, [4, 3, 3, 2, 2]) if b == 0 else (3 if b == 11 else 0)
@@ -151,6 +151,14 @@ def gen_upstream(ch, cap):
                     stage=stage)
         if stage == 0 and ch.chance("stall_hs", 0.3):
             info["stall_handshake"] = True
+    elif b == 14:
+        # the longest legal headers: a meta of up to 1024 bytes (the status and CRLF come on top)
+        n_ = ch.pick("longmeta", [1019, 1020, 1023, 1024])
+        st_ = ch.pick("longst", [20, 51, 30, 10])
+        meta = ("text/plain; note=" if st_ == 20 else "gemini://x.sim/" if st_ == 30 else "") 
+        meta = meta + "m" * (n_ - len(meta))
+        info.update(name="long-meta", must="verbatim",
+                    stream=f"{st_} {meta}\r\n".encode() + (b"body\n" if st_ == 20 else b""))
     elif b == 13:
         # never finishes, but keeps sending a byte at intervals shorter than the timeout
         stage = ch.choose("tstage", 2)
